@@ -2712,6 +2712,10 @@ class netcdf(PseudoNetCDFFile, NetCDFFile):
             return False
 
     def close(self):
+        # the C library recycles ids: closing an already closed id again
+        # could close another file that has been opened in the meantime
+        if not self.isopen():
+            return
         try:
             return NetCDFFile.close(self)
         except Exception as e:
